@@ -351,10 +351,19 @@ class NegateExpression(UnaryExpression):
         group_types = (
             AddExpression,
             SubtractExpression,
+            DivideExpression,
             FactorialExpression,
         )
-        # Two consecutive minus signs do not parse, and "-4!" reads as (-4)!
-        if isinstance(inner, group_types) or f"{inner}".startswith("-"):
+        # Two consecutive minus signs do not parse, "-4!" reads as (-4)! and "-2^x"
+        # reads as (-2)^x because a minus sign joins the literal that follows it
+        literal_power = isinstance(inner, PowerExpression) and isinstance(
+            inner.left, ConstantExpression
+        )
+        if (
+            isinstance(inner, group_types)
+            or literal_power
+            or f"{inner}".startswith("-")
+        ):
             inner = f"({inner})"
         out = self.with_color("-{}".format(inner))
         if _is_power_base(self):
@@ -670,7 +679,15 @@ class PowerExpression(BinaryExpression):
         return np.power(one, two)
 
     def __str__(self) -> str:
-        out = "{}{}{}".format(self.left, self.with_color(self.name), self.right)
+        right = f"{self.right}"
+        # An exponent that is itself a power, or the negation of a product, only
+        # reads back as one exponent inside parentheses
+        if isinstance(self.right, PowerExpression) or (
+            isinstance(self.right, NegateExpression)
+            and isinstance(self.right.get_child(), MultiplyExpression)
+        ):
+            right = f"({right})"
+        out = "{}{}{}".format(self.left, self.with_color(self.name), right)
         return f"({out})" if _is_power_base(self) else out
 
 
